@@ -992,6 +992,9 @@ package gmars
 //@   panics [C05][C07]
 //@   modifies nothing
 //@   assumes result.1 == nil ==> result.0 == exprVal(expr)
+// the sign runs are folded first, then the remaining "- -" pairs are rewritten: only in this order does every
+// run of unary signs reach the evaluator as at most one sign
+//@   ensures [C07] combOf(local(combinedExpr), expr) && flipOf(local(flippedExpr), local(combinedExpr))
 //@   ensures [C07] result.1 == nil ==> 0 - 2147483648 <= result.0 && result.0 <= 2147483647
 //@   ensures [C07] result.1 != nil ==> result.0 == 0
 //@   ensures [C05][C07] result.1 == nil ==> (forall k :: 0 <= k && k < len(expr) ==> expr[k].typ != tokText)
@@ -1302,9 +1305,13 @@ package gmars
 // sign-run folding: after an operator a run of unary signs is replaced by one "-" iff the number of minus
 // signs in the run is odd. The inner loop's flag must therefore toggle on every "-" (a parity), which is
 // stated per iteration; the emitted sign is "-" exactly when the flag is set.
+// provenance markers: what a token list was computed from (established only by the two rewriting functions)
+//@ uf combOf(a Slice, b Slice) Bool
+//@ uf flipOf(a Slice, b Slice) Bool
 //@ func combineSigns
 //@   panics [C05][C07]
 //@   modifies nothing
+//@   assumes combOf(result, expr)
 //@   loop 1
 //@     invariant 0 <= i && i <= len(expr) + 1 && fresh(arr(out))
 //@     decreases len(expr) + 1 - i
@@ -1318,6 +1325,7 @@ package gmars
 //@ func flipDoubleNegatives
 //@   panics [C05][C07]
 //@   modifies nothing
+//@   assumes flipOf(result, expr)
 //@   loop 1
 //@     invariant 0 <= i && i <= len(expr) && fresh(arr(out))
 //@     backedge [C07] len(out) == iter(len(out)) + 1
@@ -1432,6 +1440,9 @@ package gmars
 //@   ensures 0 <= r.i
 
 // parser
+// what the parser's states record (C03): the fields of the line being built, and that a finished line is appended
+// to the output exactly as built
+//@ pure lineEmitted(p *parser) = len(p.lines) == old(len(p.lines)) + 1 && p.lines[len(p.lines) - 1] == p.currentLine
 //@ pure parserOK(p *parser) = p != nil && p.lex != nil && p.symbols != nil && p.references != nil
 //@ func (*parser).next
 //@   panics [C05]
@@ -1447,6 +1458,8 @@ package gmars
 //@   requires parserOK(p)
 //@   modifies p.*, p.lines[*], ghost p.lex.*
 //@   ensures parserOK(p)
+//@   ensures [C03] result != nil ==> lineEmitted(p) && result == nextState
+//@   ensures [C03] p.currentLine == old(p.currentLine){newlines: p.currentLine.newlines}
 //@ func parseLine
 //@   panics [C05]
 //@   requires parserOK(p)
@@ -1457,6 +1470,7 @@ package gmars
 //@   requires parserOK(p)
 //@   modifies p.*, p.lines[*], p.symbols[*], p.references[*], p.currentLine.labels[*], p.currentLine.a[*], p.currentLine.b[*], ghost p.lex.*
 //@   ensures parserOK(p)
+//@   ensures [C03] lineEmitted(p) && result == parseLine
 //@   loop 1
 //@     invariant parserOK(p) && p.symbols == old(p.symbols) && p.references == old(p.references)
 //@     invariant (fresh(arr(p.currentLine.a)) || arr(p.currentLine.a) == old(arr(p.currentLine.a))) && (fresh(arr(p.currentLine.b)) || arr(p.currentLine.b) == old(arr(p.currentLine.b)))
@@ -1465,11 +1479,15 @@ package gmars
 //@   requires parserOK(p)
 //@   modifies p.*, p.lines[*], p.symbols[*], p.references[*], p.currentLine.labels[*], p.currentLine.a[*], p.currentLine.b[*], ghost p.lex.*
 //@   ensures parserOK(p)
+//@   ensures [C03] p.currentLine.comment == old(p.nextToken.val) && p.currentLine.op == old(p.currentLine.op) && p.currentLine.typ == old(p.currentLine.typ)
 //@ func parseLabels
 //@   panics [C05]
 //@   requires parserOK(p)
 //@   modifies p.*, p.lines[*], p.symbols[*], p.references[*], p.currentLine.labels[*], p.currentLine.a[*], p.currentLine.b[*], ghost p.lex.*
 //@   ensures parserOK(p)
+// a word that is neither an opcode nor a colon is a label of the line
+//@   ensures [C03] result == parseLabels && old(p.nextToken.typ) != tokNewline && old(p.nextToken.typ) != tokComment ==>
+//@      len(p.currentLine.labels) == old(len(p.currentLine.labels)) + 1 && p.currentLine.labels[len(p.currentLine.labels) - 1] == old(p.nextToken.val)
 //@ func parseColon
 //@   panics [C05]
 //@   requires parserOK(p)
@@ -1483,11 +1501,16 @@ package gmars
 //@   requires parserOK(p)
 //@   modifies p.*, p.lines[*], p.symbols[*], p.references[*], p.currentLine.labels[*], p.currentLine.a[*], p.currentLine.b[*], ghost p.lex.*
 //@   ensures parserOK(p)
+//@   ensures [C03] p.currentLine.op == old(p.nextToken.val) && p.currentLine.typ == linePseudoOp
+// END (in any letter case) ends the program: later lines are not read
+//@   ensures [C03] p.endSeen == (old(p.endSeen) || lower(old(p.nextToken.val)) == "end")
+//@   ensures [C03] result == parseLine ==> lineEmitted(p)
 //@ func parsePseudoExpr
 //@   panics [C05]
 //@   requires parserOK(p)
 //@   modifies p.*, p.lines[*], p.symbols[*], p.references[*], p.currentLine.labels[*], p.currentLine.a[*], p.currentLine.b[*], ghost p.lex.*
 //@   ensures parserOK(p)
+//@   ensures [C03] result == parseLine ==> lineEmitted(p)
 //@   loop 1
 //@     invariant parserOK(p) && p.symbols == old(p.symbols) && p.references == old(p.references)
 //@     invariant (fresh(arr(p.currentLine.a)) || arr(p.currentLine.a) == old(arr(p.currentLine.a))) && (fresh(arr(p.currentLine.b)) || arr(p.currentLine.b) == old(arr(p.currentLine.b)))
@@ -1496,16 +1519,21 @@ package gmars
 //@   requires parserOK(p)
 //@   modifies p.*, p.lines[*], p.symbols[*], p.references[*], p.currentLine.labels[*], p.currentLine.a[*], p.currentLine.b[*], ghost p.lex.*
 //@   ensures parserOK(p)
+//@   ensures [C03] p.currentLine.op == old(p.nextToken.val) && p.currentLine.typ == lineInstruction && p.currentLine.codeLine == old(p.codeLine)
+//@   ensures [C03] old(p.codeLine) < 4294967296 ==> p.codeLine == old(p.codeLine) + 1
 //@ func parseModeA
 //@   panics [C05]
 //@   requires parserOK(p)
 //@   modifies p.*, p.lines[*], p.symbols[*], p.references[*], p.currentLine.labels[*], p.currentLine.a[*], p.currentLine.b[*], ghost p.lex.*
 //@   ensures parserOK(p)
+//@   ensures [C03] p.currentLine.amode == old(p.nextToken.val) && p.currentLine.bmode == old(p.currentLine.bmode) && p.currentLine.op == old(p.currentLine.op)
 //@ func parseExprA
 //@   panics [C05]
 //@   requires parserOK(p)
 //@   modifies p.*, p.lines[*], p.symbols[*], p.references[*], p.currentLine.labels[*], p.currentLine.a[*], p.currentLine.b[*], ghost p.lex.*
 //@   ensures parserOK(p)
+//@   ensures [C03] result == parseLine ==> lineEmitted(p)
+//@   ensures [C03] p.err == nil && (p.nextToken.typ == tokNewline || p.nextToken.typ == tokEOF) ==> result == parseLine
 //@   loop 1
 //@     invariant parserOK(p) && p.symbols == old(p.symbols) && p.references == old(p.references)
 //@     invariant (fresh(arr(p.currentLine.a)) || arr(p.currentLine.a) == old(arr(p.currentLine.a))) && (fresh(arr(p.currentLine.b)) || arr(p.currentLine.b) == old(arr(p.currentLine.b)))
@@ -1519,11 +1547,14 @@ package gmars
 //@   requires parserOK(p)
 //@   modifies p.*, p.lines[*], p.symbols[*], p.references[*], p.currentLine.labels[*], p.currentLine.a[*], p.currentLine.b[*], ghost p.lex.*
 //@   ensures parserOK(p)
+//@   ensures [C03] p.currentLine.bmode == old(p.nextToken.val) && p.currentLine.amode == old(p.currentLine.amode) && p.currentLine.op == old(p.currentLine.op)
 //@ func parseExprB
 //@   panics [C05]
 //@   requires parserOK(p)
 //@   modifies p.*, p.lines[*], p.symbols[*], p.references[*], p.currentLine.labels[*], p.currentLine.a[*], p.currentLine.b[*], ghost p.lex.*
 //@   ensures parserOK(p)
+//@   ensures [C03] result == parseLine ==> lineEmitted(p)
+//@   ensures [C03] p.err == nil && (p.nextToken.typ == tokEOF) ==> result == parseLine
 //@   loop 1
 //@     invariant parserOK(p) && p.symbols == old(p.symbols) && p.references == old(p.references)
 //@     invariant (fresh(arr(p.currentLine.a)) || arr(p.currentLine.a) == old(arr(p.currentLine.a))) && (fresh(arr(p.currentLine.b)) || arr(p.currentLine.b) == old(arr(p.currentLine.b)))
@@ -1556,14 +1587,20 @@ package gmars
 //@   modifies p.*, p.symbols[*], p.labelBuf[*], p.valBuf[*], ghost p.lex.*
 //@   ensures scannerOK(p)
 //@ func scanEquValue
-//@   panics [C05]
+//@   panics [C05][C08]
 //@   requires scannerOK(p)
 //@   modifies p.*, p.symbols[*], p.labelBuf[*], p.valBuf[*], ghost p.lex.*
 //@   ensures scannerOK(p)
+// a recorded EQU value is never written again: the scanner goes on with fresh buffers
+//@   ensures [C08] p.err == nil ==> fresh(arr(p.valBuf)) && fresh(arr(p.labelBuf))
 //@   loop 1
 //@     invariant scannerOK(p) && p.symbols == old(p.symbols) && (fresh(arr(p.valBuf)) || arr(p.valBuf) == old(arr(p.valBuf)))
+//@     invariant p.err == old(p.err) && p.labelBuf == old(p.labelBuf)
 //@   loop 2
 //@     invariant scannerOK(p) && p.symbols == old(p.symbols) && 0 - 1 <= rangeindex && rangeindex < len(p.labelBuf)
+//@     invariant p.err == old(p.err)
+// every label of the EQU line is bound to the operand text collected from that line
+//@     invariant [C08] forall k :: 0 <= k && k <= rangeindex ==> has(p.symbols, p.labelBuf[k]) && p.symbols[p.labelBuf[k]] == p.valBuf
 
 // FOR expander state functions (sends are skips, see above)
 // (the line labels of the block being collected must not share their backing array with the label buffer,
